@@ -12,7 +12,7 @@
     bearing `α ↦ π − α` (mod π).
 
   The ellipse fact is proved here directly on the generated definition with the shared `Scalar ℝ`
-  (`Gama.instScalarReal`, `Lemmas/RealScalar.lean`) and a `Trig ℝ` instance equal to C09's
+  (`Gama.instScalarReal`, `Lemmas/RealScalar.lean`) and a `StatsTrig ℝ` instance equal to C09's
   (`Props/C07Compose.lean`: `trigReal_C07_eq_C09`, by `rfl`; written when `Lemmas/StatsReal.lean`
   could not yet be imported next to `Lemmas/LinSpec.lean`).  `Props/C07Compose.lean` composes it with
   C09's eigen-decomposition theorem.
@@ -143,7 +143,7 @@ end Gama.LS
 namespace Gama
 
 /-- `atan2`, `M_PI` over ℝ — the same meaning as C09's instance (`Lemmas/StatsReal.lean`) -/
-noncomputable instance instTrigRealC07 : Trig ℝ where
+noncomputable instance instTrigRealC07 : StatsTrig ℝ where
   atan2 := fun y x => Complex.arg ⟨x, y⟩
   pi := Real.pi
 
